@@ -1,8 +1,8 @@
 import N0Verif.Proofs.XPathResolve
 /-!
   List-rooted containers (`n0list._find`): a leading index token is walked by `findL`, which hands a
-  dict element to `n0dict._find` with `self` = that element (`dispatchD`: `sp` = the element's
-  position).  The tree layer of `Proofs/XPathTree.lean` is restated here for an arbitrary `sp`
+  dict element to `n0dict._find` with `self` = the list the search started from (`dispatchD`, fix C06-f: `sp` stays the
+  position of the root; it was the element's position).  The tree layer of `Proofs/XPathTree.lean` is restated here for an arbitrary `sp`
   (the `sp` argument is only used by the `..`, `new()` and empty-token branches, which a spelling
   never reaches).
 -/
@@ -154,7 +154,7 @@ theorem findL_idx_step_dict (fuel : Nat) (root : Val) (sp : Pos) (rl : Bool) (q 
     (hq : getAt root q = some (.list cls xs)) (hk : IdxTok tok e i)
     (hn : normIdx i xs.length = some n) (hx : xs[n]? = some (.dict dc kvs)) :
     findL (fuel + 1) root sp (tok :: rest) (.at q) rl found
-      = findD fuel root (q ++ [.idx n]) false true rest (.at (q ++ [.idx n])) rl (found ++ bracket (intStr i)) := by
+      = findD fuel root sp false true rest (.at (q ++ [.idx n])) rl (found ++ bracket (intStr i)) := by
   have hr : rest.isEmpty = false := isEmpty_false_of_ne hrest
   have hrange := normIdx_range hn
   rw [findL]
@@ -203,7 +203,7 @@ theorem findL_spells (root : Val) (rl : Bool) (sp : Pos) {toks : List Str} {v : 
       cases c with
       | dict dc kvs =>
         rw [findL_idx_step_dict f root sp rl q found tok e i rest hrest cls xs n dc kvs hq hk hn hx]
-        obtain ⟨r, hr, hfound⟩ := find_spells_sp root rl (q ++ [.idx n]) hs hrest f (q ++ [.idx n]) _ true hq' hf'
+        obtain ⟨r, hr, hfound⟩ := find_spells_sp root rl sp hs hrest f (q ++ [.idx n]) _ true hq' hf'
         exact ⟨r, hr, hfound.cons⟩
       | list lc ys =>
         rw [findL_idx_step_list f root sp rl q found tok e i rest hrest cls xs n lc ys hq hk hn hx]
